@@ -31,7 +31,7 @@ OsLimited(kind, len) == (kind = "filename" /\ len > 255) \/ (kind = "path" /\ le
 TLong == /\ Ev.e = "long"
          /\ IF OsLimited(Ev.kind, Ev.len)
             THEN Chk(Ev.rc # "ECONF_SUCCESS", [refused_by_os |-> TRUE])
-            ELSE Chk(Ev.rc = "ECONF_SUCCESS" /\ (Ev.api = "readFile" \/ (Ev.out_len = Ev.len /\ Ev.head_ok /\ Ev.tail_ok)),
+            ELSE Chk(Ev.rc = "ECONF_SUCCESS" /\ (Ev.api \in {"readFile", "readConfig"} \/ (Ev.out_len = Ev.len /\ Ev.head_ok /\ Ev.tail_ok)),
                      [out_len |-> Ev.len, head_ok |-> TRUE, tail_ok |-> TRUE])
 Init == l = 1
 Next == l <= Len(Tr) /\ l' = l + 1 /\ (TClass \/ TLong)
